@@ -55,3 +55,24 @@ Theorem C06_api_overlap_filter_tables :
       has_pair (fst l) (fst r) out = cmp_op (j_op c) (PInt (overlap_sets (toks_of l) (toks_of r))) (j_t c).
 Proof. exact C06_overlap_filter_tables. Qed.
 Print Assumptions C06_api_overlap_filter_tables.
+
+(* tie to the source: index/inverted_index.py (build) and OverlapFilter.find_candidates, as
+   REGENERATED on this run, count for every indexed row exactly the model's overlap_count *)
+From SSJ Require Import IndexGen IndexPyFacts IndexProbeFacts IndexInverted.
+Theorem inverted_index_code_refines_model :
+  forall (attr : pyval) (tokenize : pyval -> pyval) (rows : list pyval) (L : list (list Z))
+         (flag ce : bool) (Y : list Z),
+  Forall2 (irow_ok attr tokenize) rows L ->
+  exists (index size_cache ret : pyval) (d : list (Z * Z)),
+    inverted_index_build (PList rows) attr (PBool flag) (PBool ce) tokenize = PTuple [index; size_cache; ret] /\
+    overlap_filter_find_candidates (pints Y) index = PDict (drepr PInt d) /\
+    forall c : nat, (c < List.length L)%nat -> cval d (Z.of_nat c) = overlap_count (nth c L []) Y.
+Proof. exact overlap_find_candidates_refines. Qed.
+Print Assumptions inverted_index_code_refines_model.
+
+From SSJ Require Import MatcherChunks.
+Theorem C06_candset_njobs :
+  forall dropped njobs cpus cand, Z.of_nat (List.length cand) < 2^31 ->
+  filter_candset_model dropped njobs cpus cand = Some (candset_split dropped cand).
+Proof. exact filter_candset_njobs_b. Qed.
+Print Assumptions C06_candset_njobs.
